@@ -10,7 +10,7 @@ import pymbolic.primitives as p
 
 from ..core import Failure, Prop, Stream
 from ..oracles import dual
-from ..sexp import A, Unencodable, dumps, expr_to_sx, loads, sx_shrinks, sx_to_expr
+from ..sexp import A, Unencodable, dumps, expr_to_sx, hashcons, loads, sx_shrinks, sx_to_expr
 
 CFGS = ["none", "continuous", "discontinuous"]
 MATH = p.Variable("math")
@@ -293,17 +293,24 @@ class TreeStream(Stream):
             g = DiffGen(rng, junk=0.03 if i % 3 else 0.0, floats=0.03 if i % 4 == 0 else 0.0)
             e = g.gen(rng.randint(1, 4))
             v, vs = DIFF_VARS[i % len(DIFF_VARS)] if tier == "quick" else rng.choice(DIFF_VARS)
-            yield payload(e, v, vs, CFGS[(i // 2) % 3] if i % 2 else "discontinuous")
+            pl = payload(e, v, vs, CFGS[(i // 2) % 3] if i % 2 else "discontinuous")
+            # sharing-heavy mode: equal subtrees are one object (x*x with the same x twice)
+            pl["share"] = bool(i % 3 == 0)
+            yield pl
 
     def request(self, pl):
         return f"(diff {pl['cfg']} {pl['var']} {pl['expr']})"
 
-    def run_impl(self, pl):
+    def _expr(self, pl):
         e = sx_to_expr(loads(pl["expr"]))
+        return hashcons(e) if pl.get("share") else e
+
+    def run_impl(self, pl):
+        e = self._expr(pl)
         return tree_sx(lambda: run_differentiate(e, the_var(pl), pl["cfg"]))
 
     def oracle(self, pl):
-        e = sx_to_expr(loads(pl["expr"]))
+        e = self._expr(pl)
         return check_derivative(e, sx_to_expr(loads(pl["var"])), the_var(pl), pl["cfg"], pl)
 
     def shrink(self, pl):
